@@ -32,11 +32,15 @@ fn wrap(props: &[&'static str], mon: &str, r: Result<Result<u64, (String, String
     match r {
         Ok(Ok(n)) => Ok(n),
         Ok(Err((kind, detail))) => Err(Finding::new(props, format!("{}/{}", mon, kind), detail)),
-        Err(p) => Err(Finding::new(
-            &["C05"],
-            format!("{}/panic", mon),
-            format!("a read-only call panicked: {}", p),
-        )),
+        Err(p) => {
+            // a read-only call that panics does not return what this property says it returns;
+            // it is also a panic on a valid call (C05)
+            let mut ps = props.to_vec();
+            if !ps.contains(&"C05") {
+                ps.push("C05");
+            }
+            Err(Finding::new(&ps, format!("{}/panic", mon), format!("a read-only call panicked: {}", p)))
+        }
     }
 }
 
@@ -560,7 +564,7 @@ pub fn c10_double_ended<P: Payload>(st: &State<P>, rng: &mut Rng, stats: &mut C1
             Ok(obs + p)
         }
         Ok(Err((kind, detail))) => Err(Finding::new(&["C10"], format!("double-ended/{}", kind), detail)),
-        Err(p) => Err(Finding::new(&["C05"], "double-ended/panic".into(), p)),
+        Err(p) => Err(Finding::new(&["C10", "C05"], "double-ended/panic".into(), p)),
     }
 }
 
